@@ -126,6 +126,30 @@ def case_month(mon, y, m, ks):
                       lambda: {"date": [y, m, d, list(t)], "offset_s": off,
                                "iers_s": want},
                       lambda: key_offset(y, m, d, off, want))
+            # the same civil instant plus a fraction of a second, given as
+            # a datetime (microseconds) and as numbers, with and without
+            # utc=True: the offset is the same and no sub-second part is lost
+            try:
+                import datetime as _dt
+                us = 250000 + (d * 37 + m) * 100
+                dtm = _dt.datetime(y, m, d, t[0], t[1], int(t[2]), us)
+                sec = int(t[2]) + us / 1e6
+                a_utc = Epoch(dtm, utc=True).jde()
+                a_tt = Epoch(dtm).jde()
+                n_utc = Epoch(y, m, d, t[0], t[1], sec, utc=True).jde()
+                n_tt = Epoch(y, m, d, t[0], t[1], sec).jde()
+                mon.evals += 1
+                mon.check("datetime-form==numbers",
+                          abs(a_utc - n_utc) <= 1e-9
+                          and abs(a_tt - n_tt) <= 1e-9,
+                          lambda: {"datetime": repr(dtm),
+                                   "utc_datetime_minus_numbers_s":
+                                   (a_utc - n_utc) * 86400.0,
+                                   "tt_datetime_minus_numbers_s":
+                                   (a_tt - n_tt) * 86400.0})
+            except Exception as ex:
+                mon.dev("datetime-form==numbers",
+                        {"date": [y, m, d, list(t)], "raised": repr(ex)})
             # read back
             try:
                 fy, fm, fd, fh, fmi, fs = e_utc.get_full_date(utc=True)
